@@ -28,6 +28,7 @@ type cenv struct {
 	pol     int      // +1: the clause is a goal, -1: it is assumed, 0: unknown polarity
 	ante    []string // antecedents enclosing the current sub-formula (assumed clauses)
 	guard   string   // path guard under which an assumed clause holds
+	goalSide bool    // the clause being evaluated is a proof goal (its index terms are instantiation points)
 }
 
 func (c *cenv) clone() *cenv {
@@ -55,6 +56,8 @@ func bval(t string) Val { return Val{K: KBool, T: t, Typ: boolT} }
 // universally quantified goals are Skolemised and universally quantified
 // assumptions are instantiated lazily (quantifier-free VCs by construction).
 func (c *cenv) evalGoal(src string) string {
+	c.goalSide = true
+	defer func() { c.goalSide = false }()
 	c.pol = 1
 	c.ante = nil
 	t := c.evalSpec(src)
@@ -66,7 +69,9 @@ func (c *cenv) evalAssume(guard, src string) string {
 	c.pol = -1
 	c.ante = nil
 	c.guard = guard
+	c.fv.quiet++
 	t := c.evalSpec(src)
+	c.fv.quiet--
 	c.pol = 0
 	return t
 }
@@ -299,6 +304,9 @@ func (c *cenv) evalQuant(src string) Val {
 			cc.st = c.st.clone()
 			cc.pol = -1
 			lq := &lazyQuant{tag: fv.curTag, env: cc, name: name, proto: bv, sort: srt, mkGuard: mkGuard, body: body, guard: and(append([]string{c.guard}, c.ante...)...), done: map[string]bool{}}
+			if ranged {
+				lq.elems = c.indexedElems(name, body)
+			}
 			fv.lazies = append(fv.lazies, lq)
 			for _, h := range hints {
 				hv := c.eval(h)
@@ -309,7 +317,7 @@ func (c *cenv) evalQuant(src string) Val {
 				}
 			}
 			for _, sk := range fv.skolems {
-				if sk.sort == srt && fv.visible(sk.tag) {
+				if sk.sort == srt && fv.visible(sk.tag) && lq.relevant(sk.elem) {
 					fv.instantiate(lq, sk.term)
 				}
 			}
@@ -346,12 +354,14 @@ type lazyQuant struct {
 	done    map[string]bool
 	inst    map[string][]int
 	tag     int
+	elems   map[string]bool // element types indexed with the bound variable (nil = unknown)
 }
 
 type skolem struct {
 	term string
 	sort string
 	tag  int
+	elem string // element type of the slice the term indexes ("" = unknown: matches every quantified clause)
 }
 
 // visible: lines emitted at tag t are part of the slice of the current tag.
@@ -372,13 +382,79 @@ func (fv *FnVC) hasSkolem(t string) bool {
 	return false
 }
 
-func (fv *FnVC) instantiateLazies(sk, srt string) {
-	fv.skolems = append(fv.skolems, skolem{sk, srt, fv.curTag})
+func (fv *FnVC) instantiateLazies(sk, srt string) { fv.instantiateLazies2(sk, srt, "") }
+
+// instantiateLazies2: elem is the element type of the slice that sk indexes.
+func (fv *FnVC) instantiateLazies2(sk, srt, elem string) {
+	if fv.inInst > 0 {
+		return // terms produced by an instantiation are not new instantiation points (no matching loops)
+	}
+	fv.skolems = append(fv.skolems, skolem{sk, srt, fv.curTag, elem})
 	for _, lq := range fv.lazies {
-		if lq.sort == srt && fv.visible(lq.tag) {
+		if lq.sort == srt && fv.visible(lq.tag) && lq.relevant(elem) {
 			fv.instantiate(lq, sk)
 		}
 	}
+}
+
+func (lq *lazyQuant) relevant(elem string) bool {
+	if elem == "" || len(lq.elems) == 0 {
+		return true
+	}
+	return lq.elems[elem]
+}
+
+// indexedElems: element types of the slices that the body indexes with the bound variable.
+func (c *cenv) indexedElems(name, body string) map[string]bool {
+	out := map[string]bool{}
+	e, err := parser.ParseExpr(strings.NewReplacer("==>", "&&", "<==>", "==", "forall ", "", "exists ", "", "::", "&&", " in ", " < ", "..", " < ").Replace(body))
+	if err != nil {
+		return nil
+	}
+	ok := true
+	ast.Inspect(e, func(n ast.Node) bool {
+		ix, isIx := n.(*ast.IndexExpr)
+		if !isIx {
+			return true
+		}
+		uses := false
+		ast.Inspect(ix.Index, func(m ast.Node) bool {
+			if id, isId := m.(*ast.Ident); isId && id.Name == name {
+				uses = true
+			}
+			return true
+		})
+		if !uses {
+			return true
+		}
+		c2 := c.clone()
+		c2.pol = 0
+		save := c.fv.inInst
+		c.fv.inInst++
+		x := c2.expr(ix.X)
+		c.fv.inInst = save
+		if c2.err != nil || x.Typ == nil {
+			ok = false
+			return true
+		}
+		switch t := types.Unalias(x.Typ).Underlying().(type) {
+		case *types.Slice:
+			out[canonType(t.Elem())] = true
+		case *types.Pointer:
+			if a, isA := t.Elem().Underlying().(*types.Array); isA {
+				out[canonType(a.Elem())] = true
+			} else {
+				ok = false
+			}
+		default:
+			ok = false
+		}
+		return true
+	})
+	if !ok {
+		return nil
+	}
+	return out
 }
 
 func (fv *FnVC) instantiate(lq *lazyQuant, idx string) {
@@ -395,7 +471,11 @@ func (fv *FnVC) instantiate(lq *lazyQuant, idx string) {
 	c2.pol = -1
 	c2.ante = nil
 	c2.guard = and(lq.guard, lq.mkGuard(idx))
+	fv.inInst++
+	fv.quiet++
 	b := c2.eval(lq.body)
+	fv.quiet--
+	fv.inInst--
 	if c2.err != nil {
 		fv.specErr(c2.err)
 		return
@@ -465,6 +545,12 @@ func (c *cenv) typeExpr(e ast.Expr) types.Type {
 		}
 	case *ast.InterfaceType:
 		return types.NewInterfaceType(nil, nil)
+	case *ast.MapType:
+		k, v := c.typeExpr(e.Key), c.typeExpr(e.Value)
+		if k == nil || v == nil {
+			return nil
+		}
+		return types.NewMap(k, v)
 	}
 	return nil
 }
@@ -915,6 +1001,10 @@ func (c *cenv) lvalue(e ast.Expr) (loc string, t types.Type, ok bool) {
 		}
 		if s, isS := types.Unalias(x.Typ).Underlying().(*types.Slice); isS {
 			idx := c.as64(c.expr(e.Index))
+			if c.goalSide && c.fv.boundDepth == 0 && !strings.Contains(idx, "!") && !c.fv.hasSkolem(idx) {
+				// index terms written in contracts are instantiation points too
+				c.fv.instantiateLazies2(idx, bvSort(64), canonType(s.Elem()))
+			}
 			return lelem("(sarr "+x.T+")", "(bvadd (soff "+x.T+") "+idx+")"), s.Elem(), true
 		}
 	case *ast.Ident:
